@@ -230,8 +230,16 @@ impl FileHasher<'_> {
         transform: Option<Transform>,
         log: &dyn Log,
     ) -> Result<FileHasher<'_>, Error> {
-        let transform_command_str = transform.as_ref().map(|t| t.command_str.as_str());
-        let cache = HashCache::open_default(transform_command_str, algorithm)?;
+        // With `--in-place` the data are read from the file the program worked on instead of
+        // its output, so the same command gives different results and needs its own cache tree.
+        let transform_id = transform.as_ref().map(|t| {
+            if t.in_place {
+                format!("{} --in-place", t.command_str)
+            } else {
+                t.command_str.clone()
+            }
+        });
+        let cache = HashCache::open_default(transform_id.as_deref(), algorithm)?;
         Ok(FileHasher {
             algorithm,
             buf_len: 65536,
